@@ -132,7 +132,7 @@ def run(tier, t0):
                     deep.append((f, n) + d)
     for ch in common.chunks(rm.interleaved(deep), 500):
         tasks.append((work_shapes, ch))
-    for kind, lon, lat in geo.special_sites():
+    for kind, lon, lat in geo.special_sites(tier, common.seed()):
         tasks.append((work_site_shapes, (kind, lon, lat)))
     tasks = common.rotate(tasks, common.seed())
     for part in common.pmap(_dispatch, tasks, chunksize=2):
